@@ -48,7 +48,7 @@ SPEC = {
     "translators": [translate_hash_uses],
     "tiers": {
         "quick": {"cases": 32, "extra": {"children": 4, "cycles": 10}},
-        "thorough": {"cases": 1000, "extra": {"children": 5, "cycles": 16}},
+        "thorough": {"cases": 800, "extra": {"children": 5, "cycles": 16}},
     },
     "timeout": 7200,
     # The compared observables are the container bytes and the per-cycle dumps (variables, outputs,
@@ -65,6 +65,19 @@ SPEC = {
             "CONFIGURATION with 0-3 tasks, 1 in 5 three times larger, 1 in 16 deliberately ill-typed) x generated trace "
             "(dt incl. 0 and sub-ms, BOOL/DINT inputs, direct inputs, 1 in 6 with a warm/cold restart); projects declare "
             ">= 2 initialised VAR_GLOBAL RETAIN variables, scalars of 15 elementary types, subrange/alias/REF_TO types, and "
+            "in half of the projects 2-4 library NAMESPACEs (plain, nested blocks, at most one dotted) that declare the same "
+            "simple names (struct / enum / subrange types, function blocks, functions, classes) with different contents, and "
+            "2-5 consumers (programs, function blocks, functions, class methods; at file level or inside 1-2 further "
+            "namespaces) that reach them only through USING directives at file level, on the enclosing namespaces, on the POU "
+            "and on the method (single or comma lists, before or after the consumers), with the same namespace imported twice "
+            "on the scope chain and >= 2 imported namespaces declaring a used name (only names the checker resolves "
+            "unambiguously are used); in half of the projects a program with 4-10 formal (named-argument) calls, arguments "
+            "written in random order, whose argument expressions each leave their own digit in a log (VAR_IN_OUT, global "
+            "through VAR_EXTERNAL, method changing its instance): every extensible standard function that can be called "
+            "formally (ADD MUL MIN MAX MUX GT GE EQ LE LT CONCAT, 2-4 IN arguments), fixed-arity ones (SUB DIV SEL LIMIT "
+            "FIND), user functions, methods and function-block invocations, and in half of those a call in which >= 2 "
+            "arguments fault in different ways (division by zero, modulo by zero, array index) next to arguments with side "
+            "effects, from a given execution of the program on; "
             "groups of overlapping %Q/%M bindings (X, B, W, D, L starting in the same byte or overlapping it; globals and "
             "program variables; some assigned every cycle with non-commuting values, some never assigned), and in half of "
             "the projects 2-3 equally long programs with labels and JMP; sources carry relative, partly non-normalised "
@@ -81,7 +94,8 @@ SPEC = {
         "Lean 4.33.0 kernel; axioms per theorem listed under 'theorems' (propext, Quot.sound only)",
         "hand-written model lean/TrustVerif/Model/C05.lean (hash map with arbitrary layout, lookup-only client code, "
         "StringInterner, PouIdMap + POU emission order, method_table_for, type_index, ref_index_for, file_path_index, "
-        "alloc_for_temp_pairs, duplicate-name sets, hierarchical I/O map); PouIdMap, method tables and the interner "
+        "alloc_for_temp_pairs, duplicate-name sets, hierarchical I/O map, import list + first-match resolution, named-argument "
+        "binding with a slot table); PouIdMap, method tables and the interner "
         "are tied by this run's correspondence on the decoded container, the others only by the scanned table",
         "translator checks/c05_scan.py (syntactic scan of trust-runtime's compile and execution path - bytecode/**, "
         "harness/**, runtime/**, eval/**, stdlib/**, value/**, debug/**, memory.rs, io.rs, instance.rs, task.rs, ... - "
@@ -117,7 +131,12 @@ MANIFEST = {
                   "string interner returns exactly the distinct requests in first-seen order (c05_intern_order_free); "
                   "PouIdMap ids and the POU emission order are the positions in the IndexMap iteration order "
                   "(c05_pou_index_closed_form); vtables, type table, ref/string/debug tables, FOR temporaries, duplicate-name "
-                  "detection and hierarchical I/O are layout-independent (c05_*_order_free); per-cycle environment "
+                  "detection and hierarchical I/O are layout-independent (c05_*_order_free); a clean-up of repeated USING imports that keeps first occurrences leaves every first-match "
+                  "lookup unchanged while rebuilding the list from a hash set exposes its order (c05_using_dedup_order_free, "
+                  "c05_using_rebuild_exposes_order); a formal call that evaluates its arguments in written order and files the "
+                  "values in a lookup-only slot table gives the same values, fault and state under every layout, the state being "
+                  "the effects in written order, while evaluating during iteration of the table exposes its order "
+                  "(c05_named_args_order_free, _effects_in_written_order, _iter_exposes_order); per-cycle environment "
                   "independence lifts to whole traces (c05_trace_env_free). The table of all HashMap/HashSet operations in "
                   "trust-runtime's compile and execution path, regenerated from the sources on every run, contains only "
                   "order-free operations plus two reviewed loops whose order-independence is proved on a model "
@@ -221,6 +240,18 @@ def extra(ctx):
     if ncases and sens < ncases:
         failures.append(f"cross-process experiment lost its sensitivity: only {sens} of {ncases} cases saw >= 3 "
                         "distinct std::HashMap iteration orders among the observing processes")
+    # self-test of the generator: the two order families (import order, argument evaluation order) are present
+    # with the ingredients that make an order change observable
+    fam = {}
+    for c in ctx.get("cases", []):
+        for t in getattr(c, "tags", []):
+            if t.startswith("ns") or t.startswith("args"):
+                fam[t] = fam.get(t, 0) + 1
+    cov["order_family_cases"] = dict(sorted(fam.items()))
+    if ncases >= 24:
+        for need in ("ns-import-twice-and-clash", "args"):
+            if fam.get(need, 0) == 0:
+                failures.append(f"generator self-test: no case of this run carries the family `{need}`")
     if stats.get("stopped_after_hangs", 0):
         failures.append("three in-process observations did not finish (abandoned threads): generation stopped early")
     if ncases and stats.get("child_failed", 0):
